@@ -5,7 +5,9 @@
    2. suffix_value / suffix_invalid
    3. span_exact_no_cr / span_crlf_refuted
    4. escape_decode and the error forms
-   5. whitespace_comment_invariance *)
+   5. whitespace_comment_invariance
+   6. the repaired lexer::lex (lex_alpha_fixed): equal to lex_alpha without CR,
+      exact spans for every source, whole-source theorems restated *)
 From Coq Require Import String Ascii.
 From PV Require Import Base.Common Base.IR Base.Tok Model.LexAlpha.
 
@@ -2591,3 +2593,334 @@ Print Assumptions whitespace_invariance_source.
 Print Assumptions comment_invariance.
 Print Assumptions comment_directly_after_slash_refuted.
 Print Assumptions whitespace_at_end_refuted.
+
+(* ================================================================== *)
+(* 6. The repaired lexer::lex (lex_alpha_fixed). *)
+
+Lemma lines_term_fst s : map fst (lines_term s) = lines_of s.
+Proof.
+  induction s as [|c r IH]; [reflexivity|]. cbn [lines_term lines_of].
+  destruct (c =? 10); [cbn [map fst]; now rewrite IH|].
+  destruct ((c =? 13) && match r with n :: _ => n =? 10 | [] => false end).
+  - rewrite <- IH. destruct (lines_term r) as [|[l t] ls]; reflexivity.
+  - rewrite <- IH. destruct (lines_term r) as [|[l t] ls]; reflexivity.
+Qed.
+
+Example ex_lines_term :
+  lines_term (str "a" ++ [13; 10] ++ str "b" ++ [13; 13; 10; 10] ++ str "c" ++ [13]) =
+  [(str "a", 2); (str "b" ++ [13], 2); ([], 1); (str "c" ++ [13], 0)] /\
+  lines_term [10] = [([], 1)] /\ lines_term [13; 10] = [([], 2)] /\ lines_term [13] = [([13], 0)] /\
+  lines_term [97; 10] = [([97], 1)] /\ lines_term [] = [].
+Proof. vm_compute. repeat split; reflexivity. Qed.
+
+(* A line that is terminated by a bare LF does not end with CR (that CR would
+   belong to the terminator). *)
+Definition no_cr_end (l : list N) : Prop := l = [] \/ last l 0 <> 13.
+
+(* Lines with their terminators. *)
+Inductive LinesT : list N -> list (list N * N) -> Prop :=
+| LinesT_nil : LinesT [] []
+| LinesT_last l : l <> [] -> ~ In 10 l -> LinesT l [(l, 0)]
+| LinesT_lf l s ls : ~ In 10 l -> no_cr_end l -> LinesT s ls -> LinesT (l ++ 10 :: s) ((l, 1) :: ls)
+| LinesT_crlf l s ls : ~ In 10 l -> LinesT s ls -> LinesT (l ++ 13 :: 10 :: s) ((l, 2) :: ls).
+
+Lemma LinesT_push c r lts : c <> 10 ->
+  (c = 13 -> match r with 10 :: _ => False | _ => True end) ->
+  LinesT r lts ->
+  LinesT (c :: r) (match lts with [] => [([c], 0)] | (l, t) :: ls => (c :: l, t) :: ls end).
+Proof.
+  intros Hc Hcr H. destruct H as [|l Hne Hnl|l s ls Hnl Hend HL|l s ls Hnl HL].
+  - constructor; [discriminate|]. intros [H|[]]. congruence.
+  - apply (LinesT_last (c :: l)); [discriminate|]. intros [H|H]; [congruence|contradiction].
+  - apply (LinesT_lf (c :: l) s ls); [| |exact HL].
+    + intros [H|H]; [congruence|contradiction].
+    + right. destruct l as [|h l'].
+      * cbn [last]. intros ->. now apply Hcr.
+      * destruct Hend as [Hend|Hend]; [discriminate|]. exact Hend.
+  - apply (LinesT_crlf (c :: l) s ls); [|exact HL]. intros [H|H]; [congruence|contradiction].
+Qed.
+
+Lemma lines_term_LinesT_aux : forall n s, (length s <= n)%nat -> LinesT s (lines_term s).
+Proof.
+  induction n as [|n IH]; intros s Hn.
+  { destruct s; [constructor|cbn [length] in Hn; lia]. }
+  destruct s as [|c r]; [constructor|]. cbn [length] in Hn. cbn [lines_term].
+  destruct (c =? 10) eqn:E10.
+  { apply N.eqb_eq in E10. subst c. apply (LinesT_lf [] r); [intros []|now left|]. apply IH. lia. }
+  apply N.eqb_neq in E10.
+  destruct (c =? 13) eqn:E13; cbn [andb].
+  - destruct r as [|n0 r']; [apply (LinesT_push c [] [] E10); [trivial|constructor]|].
+    destruct (n0 =? 10) eqn:En.
+    + apply N.eqb_eq in E13, En. subst c n0. cbn [lines_term]. change (10 =? 10) with true. cbv iota.
+      apply (LinesT_crlf [] r'); [intros []|]. apply IH. cbn [length] in Hn. lia.
+    + apply LinesT_push; [exact E10| |apply IH; lia].
+      intros _. apply N.eqb_neq in En. destruct n0 as [|p]; [exact I|].
+      do 4 (destruct p as [p|p|]; try exact I). congruence.
+  - apply LinesT_push; [exact E10| |apply IH; lia].
+    intros ->. discriminate.
+Qed.
+
+Lemma lines_term_LinesT s : LinesT s (lines_term s).
+Proof. apply (lines_term_LinesT_aux (length s)). lia. Qed.
+
+(* ---- 6a. without carriage returns nothing changes *)
+
+Lemma lex_lines_fixed_no_cr s lts : LinesT s lts -> ~ In 13 s ->
+  forall off i, lex_lines_fixed lts off i = lex_lines (map fst lts) off i.
+Proof.
+  induction 1 as [|l Hne Hnl|l s ls Hnl Hend HL IH|l s ls Hnl HL IH]; intros Hcr off i.
+  - reflexivity.
+  - reflexivity.
+  - cbn [lex_lines_fixed lex_lines map fst]. f_equal.
+    rewrite IH; [|intros H; apply Hcr; apply in_or_app; right; now right].
+    f_equal. lia.
+  - exfalso. apply Hcr. apply in_or_app. right. now left.
+Qed.
+
+Theorem lex_alpha_fixed_no_cr src : ~ In 13 src -> lex_alpha_fixed src = lex_alpha src.
+Proof.
+  intros Hcr. unfold lex_alpha_fixed, lex_alpha. f_equal.
+  rewrite (lex_lines_fixed_no_cr src _ (lines_term_LinesT src) Hcr). now rewrite lines_term_fst.
+Qed.
+
+(* For every source: same tokens, same payloads, same line numbers and line
+   offsets; only the spans can differ. *)
+Definition pay_lo (t : tok) := (pay t, line t, lstart t).
+
+Lemma lex_line_fuel_shift : forall fuel ln sos sos' lo cs,
+  map pay_lo (lex_line_fuel fuel ln sos lo cs) = map pay_lo (lex_line_fuel fuel ln sos' lo cs).
+Proof.
+  induction fuel as [|f IH]; intros ln sos sos' lo cs; destruct cs as [|x rest]; try reflexivity.
+  cbn [lex_line_fuel]. destruct (lex_step x rest); cbn [map]; try reflexivity; try apply IH.
+  - f_equal. apply IH.
+  - f_equal. apply IH.
+Qed.
+
+Theorem lex_alpha_fixed_same_but_spans src :
+  map pay_lo (lex_alpha_fixed src) = map pay_lo (lex_alpha src).
+Proof.
+  unfold lex_alpha_fixed, lex_alpha. rewrite !map_app. f_equal.
+  rewrite <- lines_term_fst. generalize 0 at 2 4. generalize 0 at 1. generalize 0 at 1.
+  induction (lines_term src) as [|[l t] ls IH]; intros o1 o2 i; [reflexivity|].
+  cbn [lex_lines_fixed lex_lines map fst]. rewrite !map_app. f_equal.
+  - unfold lex_line. apply lex_line_fuel_shift.
+  - apply IH.
+Qed.
+
+(* ---- 6b. exact spans for every source *)
+
+(* What follows the line [l]: nothing, LF (then [l] does not end with CR), or CR LF. *)
+Definition line_end (l after : list N) : Prop :=
+  after = [] \/ (exists a, after = 10 :: a /\ no_cr_end l) \/ (exists a, after = 13 :: 10 :: a).
+
+(* [t] was lexed from the line [l] that occupies the offsets
+   [len before, len before + len l) of [src]; [before] consists of complete
+   lines (it is empty or ends with LF), [after] starts with the terminator of
+   the line.  A CR inside [l] is an ordinary character of the line. *)
+Definition tok_in_source_fixed (src : list N) (t : tok) : Prop :=
+  exists before l after,
+    src = before ++ l ++ after /\ ends_lines before /\ line_end l after /\ ~ In 10 l /\
+    tok_at (1 + count_nl before) (len before) l t.
+
+Lemma lex_lines_fixed_spans s lts : LinesT s lts ->
+  forall before, ends_lines before ->
+  Forall (tok_in_source_fixed (before ++ s)) (lex_lines_fixed lts (len before) (count_nl before)).
+Proof.
+  induction 1 as [|l Hne Hnl|l s ls Hnl Hend HL IH|l s ls Hnl HL IH]; intros before Hb.
+  - constructor.
+  - cbn [lex_lines_fixed]. rewrite app_nil_r.
+    eapply Forall_impl; [|apply lex_line_spans]. intros t Ht.
+    exists before, l, []. rewrite app_nil_r. repeat split; try assumption. now left.
+  - cbn [lex_lines_fixed]. apply Forall_app. split.
+    + eapply Forall_impl; [|apply lex_line_spans]. intros t Ht.
+      exists before, l, (10 :: s). repeat split; try assumption. right. left. exists s. now split.
+    + specialize (IH (before ++ l ++ [10])).
+      replace (len (before ++ l ++ [10])) with (len before + len l + 1) in IH
+        by (rewrite !len_app, len_cons, len_nil; lia).
+      replace (count_nl (before ++ l ++ [10])) with (count_nl before + 1) in IH
+        by (rewrite !count_nl_app, (count_nl_free l Hnl); reflexivity).
+      replace ((before ++ l ++ [10]) ++ s) with (before ++ l ++ 10 :: s) in IH
+        by (rewrite <- !app_assoc; reflexivity).
+      apply IH. right. exists (before ++ l). now rewrite <- app_assoc.
+  - cbn [lex_lines_fixed]. apply Forall_app. split.
+    + eapply Forall_impl; [|apply lex_line_spans]. intros t Ht.
+      exists before, l, (13 :: 10 :: s). repeat split; try assumption. right. right. now exists s.
+    + specialize (IH (before ++ l ++ [13; 10])).
+      replace (len (before ++ l ++ [13; 10])) with (len before + len l + 2) in IH
+        by (rewrite !len_app, !len_cons, len_nil; lia).
+      replace (count_nl (before ++ l ++ [13; 10])) with (count_nl before + 1) in IH
+        by (rewrite !count_nl_app, (count_nl_free l Hnl); reflexivity).
+      replace ((before ++ l ++ [13; 10]) ++ s) with (before ++ l ++ 13 :: 10 :: s) in IH
+        by (rewrite <- !app_assoc; reflexivity).
+      apply IH. right. exists (before ++ l ++ [13]). rewrite <- !app_assoc. reflexivity.
+Qed.
+
+(* MAIN THEOREM 6.  For EVERY source (LF, CR LF, bare CR, mixed) every token of
+   the repaired lexer was produced by lex_step at some column of some line, its
+   span is exactly the range of source offsets of the characters that step
+   consumed, its line number is 1 + the number of LF before it, and its
+   line_offset is the column. *)
+Theorem span_exact_fixed src t :
+  src <> [] -> In t (lex_alpha_fixed src) -> tok_in_source_fixed src t.
+Proof.
+  intros Hne Hin. unfold lex_alpha_fixed in Hin.
+  destruct src as [|c r]; [congruence|]. cbn [is_nil] in Hin. rewrite app_nil_r in Hin.
+  pose proof (lex_lines_fixed_spans _ _ (lines_term_LinesT (c :: r)) [] (or_introl eq_refl)) as H.
+  cbn [app] in H. change (len []) with 0 in H. change (count_nl []) with 0 in H.
+  rewrite Forall_forall in H. now apply H.
+Qed.
+
+Theorem span_exact_fixed_explicit src t :
+  src <> [] -> In t (lex_alpha_fixed src) ->
+  exists A0 A1 used B0 B1,
+    src = (A0 ++ A1) ++ used ++ (B0 ++ B1) /\
+    ends_lines A0 /\ line_end (A1 ++ used ++ B0) B1 /\ ~ In 10 A1 /\ ~ In 10 used /\ ~ In 10 B0 /\ used <> [] /\
+    line t = 1 + count_nl (A0 ++ A1) /\
+    ((tstart t = len (A0 ++ A1) /\ tend t = len (A0 ++ A1) + len used /\ lstart t = len A1 /\
+      lex_step (hd 0 used) (tl used ++ B0) =
+        StTok (kind t) (value t) (vtype t) (bytes t) (len used) B0)
+     \/
+     (kind t = KError /\ (hd 0 used = 34 \/ hd 0 used = 39) /\
+      len (A0 ++ A1) <= tstart t /\ tstart t < tend t /\ tend t <= len (A0 ++ A1) + len used + 1 /\
+      len A1 < lstart t <= len A1 + len used)).
+Proof.
+  intros Hne Hin.
+  destruct (span_exact_fixed src t Hne Hin) as (before & l & after & Hsrc & Hb & Ha & Hnl & Hat).
+  destruct Hat as (pre & used & post & Hl & Hu & Hoof & Hstep).
+  exists before, pre, used, post, after. subst l.
+  assert (Hn1 : ~ In 10 pre) by (eapply not_in_app_l; exact Hnl).
+  assert (Hn2 : ~ In 10 used) by (eapply not_in_app_l, not_in_app_r; exact Hnl).
+  assert (Hn3 : ~ In 10 post) by (eapply not_in_app_r, not_in_app_r; exact Hnl).
+  split; [rewrite Hsrc, <- !app_assoc; reflexivity|].
+  repeat (split; [assumption|]).
+  assert (Hcnt : count_nl (before ++ pre) = count_nl before)
+    by (rewrite count_nl_app, (count_nl_free pre Hn1); lia).
+  destruct (lex_step (hd 0 used) (tl used ++ post)) as [| |k v ty bs n r|c es ee eo n m r] eqn:E;
+    try contradiction.
+  - destruct Hstep as (-> & -> & ->). cbn [line mk]. split; [now rewrite Hcnt|]. left.
+    cbn [tstart tend lstart kind value vtype bytes mk]. rewrite len_app.
+    repeat split; lia.
+  - destruct Hstep as (-> & -> & -> & H1 & H2 & H3). cbn [line mk]. split; [now rewrite Hcnt|]. right.
+    cbn [tstart tend lstart kind mk]. rewrite len_app.
+    split; [reflexivity|]. split; [eapply strerr_is_quote; exact E|]. lia.
+Qed.
+
+(* ---- 6c. the witness that refuted the old bookkeeping *)
+Example span_crlf_fixed_example :
+  map pos (lex_alpha_fixed [97; 13; 10; 98]) = [(0, 1, 1, 0); (3, 4, 2, 0)] /\
+  map pos (lex_alpha [97; 13; 10; 98]) = [(0, 1, 1, 0); (2, 3, 2, 0)] /\
+  nth 3 [97; 13; 10; 98] 0 = 98.
+Proof. vm_compute. repeat split; reflexivity. Qed.
+
+(* mixed terminators, a bare CR inside a line, a CR at the very end *)
+Example span_mixed_fixed_example :
+  map pos (lex_alpha_fixed (str "a" ++ [13; 10] ++ str "b" ++ [13] ++ str "c" ++ [10; 13; 10] ++ str "d" ++ [13])) =
+  [(0, 1, 1, 0); (3, 4, 2, 0); (4, 5, 2, 1); (5, 6, 2, 2); (9, 10, 4, 0); (10, 11, 4, 1)].
+Proof. vm_compute. reflexivity. Qed.
+
+(* ---- 6d. the whole-source theorems for the repaired lexer *)
+
+Theorem lex_alpha_fixed_pays src : map pay (lex_alpha_fixed src) = map pay (lex_alpha src).
+Proof.
+  pose proof (lex_alpha_fixed_same_but_spans src) as H.
+  apply (f_equal (map (fun p : payl * N * N => fst (fst p)))) in H.
+  rewrite !map_map in H. exact H.
+Qed.
+
+Theorem lex_alpha_fixed_no_oof src t :
+  In t (lex_alpha_fixed src) -> kind t = KError -> value t <> OOF.
+Proof.
+  intros Hin Hk. apply (in_map pay) in Hin. rewrite lex_alpha_fixed_pays in Hin.
+  apply in_map_iff in Hin. destruct Hin as (t' & Hp & Hin'). unfold pay in Hp.
+  injection Hp as H1 H2 H3 H4. rewrite <- H2. apply (lex_alpha_no_oof src t' Hin'). congruence.
+Qed.
+
+Lemma no_nl_cr_not_in cs :
+  forallb (fun c => negb (c =? 10) && negb (c =? 13)) cs = true -> ~ In 13 cs.
+Proof.
+  intros H Hin. rewrite forallb_forall in H. specialize (H _ Hin). discriminate.
+Qed.
+
+Lemma lex_alpha_fixed_single_line cs : cs <> [] ->
+  forallb (fun c => negb (c =? 10) && negb (c =? 13)) cs = true ->
+  lex_alpha_fixed cs = lex_line cs 0 1.
+Proof.
+  intros Hne Hnl. rewrite (lex_alpha_fixed_no_cr cs (no_nl_cr_not_in cs Hnl)).
+  now apply lex_alpha_single_line.
+Qed.
+
+Theorem decimal_value_source_fixed x ds :
+  is_nonzero_dec x = true -> digits_us is_dec ds = true ->
+  let v := value_of_digits 10 (x :: strip_us ds) in
+  lex_alpha_fixed (x :: ds) =
+  [if (v <? 2 ^ 128)%Z
+   then mk KNakedDecimal v None [] 0 (1 + len ds) 1 0
+   else mk KError E140 None [] 0 (1 + len ds) 1 0].
+Proof.
+  intros Hx Hds v. rewrite lex_alpha_fixed_no_cr; [now apply decimal_value_source|].
+  intros [H|H].
+  - subst x. discriminate.
+  - unfold digits_us in Hds. rewrite forallb_forall in Hds. specialize (Hds _ H). discriminate.
+Qed.
+
+Theorem whitespace_invariance_source_fixed a b w :
+  boundary a b -> b <> [] -> blank w ->
+  forallb (fun c => negb (c =? 10) && negb (c =? 13)) (a ++ b) = true ->
+  map pay (lex_alpha_fixed (a ++ w :: b)) = map pay (lex_alpha_fixed (a ++ b)).
+Proof.
+  intros Hb Hne Hw Hnl. rewrite !lex_alpha_fixed_pays. now apply whitespace_invariance_source.
+Qed.
+
+(* The line-level theorems (decimal_value, hex_value, bin_value, suffix_value,
+   escape_decode, whitespace_invariance, comment_invariance, ...) are about
+   lex_step / lex_line, which the repair did not touch; they apply to both
+   lexers.  What a line contributes to the repaired lexer: *)
+Theorem lex_alpha_fixed_lines src :
+  map pay (lex_alpha_fixed src) =
+  flat_map pays_of (lines_of src) ++ (if is_nil src then [(KError, E101, None, [])] else []).
+Proof.
+  assert (Hl : forall lts o i, map pay (lex_lines_fixed lts o i) = flat_map pays_of (map fst lts)).
+  { induction lts as [|[l t] ls IH]; intros o i; [reflexivity|].
+    cbn [lex_lines_fixed map fst flat_map]. rewrite map_app, lex_line_pays, IH. reflexivity. }
+  unfold lex_alpha_fixed. rewrite map_app, Hl, lines_term_fst.
+  destruct src; reflexivity.
+Qed.
+
+(* Blank + comment + line break between two tokens of a line, as a source. *)
+Theorem comment_invariance_source_fixed a b w c :
+  boundary a b -> b <> [] -> blank w ->
+  forallb (fun c => negb (c =? 10) && negb (c =? 13)) (a ++ b) = true ->
+  forallb (fun c => negb (c =? 10) && negb (c =? 13)) c = true ->
+  map pay (lex_alpha_fixed ((a ++ w :: 47 :: 47 :: c) ++ 10 :: b)) = map pay (lex_alpha_fixed (a ++ b)).
+Proof.
+  intros Hb Hne Hw Hab Hc.
+  rewrite forallb_app in Hab. apply andb_true_iff in Hab. destruct Hab as [Ha Hbb].
+  assert (Hl1 : forallb (fun c => negb (c =? 10) && negb (c =? 13)) (a ++ w :: 47 :: 47 :: c) = true).
+  { rewrite forallb_app, Ha. cbn [forallb andb]. rewrite Hc. destruct Hw as [->| ->]; reflexivity. }
+  assert (Hlines : lines_of ((a ++ w :: 47 :: 47 :: c) ++ 10 :: b) = [a ++ w :: 47 :: 47 :: c; b]).
+  { generalize (a ++ w :: 47 :: 47 :: c) Hl1. intros l Hl. induction l as [|h l IH].
+    - cbn [app lines_of]. change (10 =? 10) with true. cbv iota.
+      rewrite (no_nl_lines b Hne Hbb). reflexivity.
+    - cbn [forallb] in Hl. apply andb_true_iff in Hl. destruct Hl as [Hh Hl].
+      apply andb_true_iff in Hh. destruct Hh as [H1 H2]. apply negb_true_iff in H1, H2.
+      cbn [app lines_of]. rewrite H1, H2. cbn [andb]. rewrite (IH Hl). reflexivity. }
+  rewrite !lex_alpha_fixed_lines, Hlines.
+  rewrite (no_nl_lines (a ++ b)); [|destruct a; [exact Hne|discriminate]|rewrite forallb_app, Ha, Hbb; reflexivity].
+  cbn [flat_map]. rewrite !app_nil_r.
+  replace (is_nil ((a ++ w :: 47 :: 47 :: c) ++ 10 :: b)) with false by (destruct a; reflexivity).
+  replace (is_nil (a ++ b)) with false by (destruct a; [destruct b; [congruence|reflexivity]|reflexivity]).
+  rewrite !app_nil_r. now apply comment_invariance.
+Qed.
+
+Print Assumptions lines_term_fst.
+Print Assumptions lex_alpha_fixed_no_cr.
+Print Assumptions lex_alpha_fixed_same_but_spans.
+Print Assumptions span_exact_fixed.
+Print Assumptions span_exact_fixed_explicit.
+Print Assumptions span_crlf_fixed_example.
+Print Assumptions lex_alpha_fixed_pays.
+Print Assumptions lex_alpha_fixed_no_oof.
+Print Assumptions decimal_value_source_fixed.
+Print Assumptions whitespace_invariance_source_fixed.
+Print Assumptions lex_alpha_fixed_lines.
+Print Assumptions comment_invariance_source_fixed.
